@@ -30,7 +30,7 @@ SCOPE = "res,recs,lv"
 def run(ctx):
     quick = ctx.tier == "quick"
     ctx.assumptions += [
-        "sequence numbers stay far below 2^31: arithmetic near 2^64 is outside TLC's integer range and is not claimed",
+        "suffixes and deltas range over all of uint64 (decimal strings in the specification); the laws are claimed wherever the exact result suffix + delta is a uint64 - requests beyond that are the recorded finding seqOverflow (the code wraps, Apply transcribes it)",
         "requests that fail in the sequence generator (fewer deltas than existing suffixes, malformed) are C13's subject and excluded here",
         "on the real channel 'eventually' is checked at quiescence (writers finished, receiver drained); the fairness-based liveness is model-checked on the specification only",
         "keys under a sequence prefix that look like 'prefix-...' are only created by sequence puts in the enumerated domain",
@@ -51,11 +51,35 @@ def run(ctx):
         res = _db.replay(ctx, binp, path, mode, SCOPE, label)
         _db.report(ctx, res, "c16-" + label)
     _db.sample_from(path, "spec transition (sequence puts) replayed on the real code", ctx)
+
+    # the whole uint64 range: deltas 2^31, 2^63-1, 2^63, 2^63+1, 2^64-2, 2^64-1 next to 1, one- and two-suffix
+    # sequences, deletes / overwrites of the maximum, range deletes, restarts; the laws are checked by the run
+    # that exports the behaviours (every transition of the bounded graph is replayed)
+    hits = []
+    big = [("db-c16big-steps.cfg", "db"), ("db-c16big-batch.cfg", "db")]
+    if not quick:
+        big += [("db-c16big-steps2.cfg", "db"), ("db-c16big-batch3.cfg", "db"), ("db-c16big-steps.cfg", "leader")]
+        r = ctx.tlc("OxiaDbMC", "db-c16big-laws4.cfg", label="big-laws4", heap="4g")
+        ctx.log("uint64 range, SeqRule/SeqFresh/SeqGrows (4 requests x 1 op): %d distinct states, %d transitions" % (r.distinct, r.generated))
+    for cfg, mode in big:
+        label = "big-" + cfg[len("db-c16big-"):-len(".cfg")] + "-" + mode
+        bpath, n, r = _db.tlc_export(ctx, cfg, "STEP", label)
+        ctx.log("uint64 range, SeqRule/SeqFresh/SeqGrows [%s]: %d distinct states, %d transitions" % (cfg, r.distinct, r.generated))
+        res = _db.replay(ctx, binp, bpath, mode, SCOPE, label)
+        _db.report(ctx, res, "c16-" + label)
+        hits += res["findings"]
+    _db.sample_from(bpath, "spec transition (sequence puts with deltas up to 2^64-1) replayed on the real code", ctx)
+    bpath, n, _ = _db.tlc_export(ctx, "db-c16big-runs.cfg", "RUN", "big-runs", simulate="num=%d" % (6 if quick else 60), depth=10, workers=1)
+    res = _db.replay(ctx, binp, bpath, "db", SCOPE, "big-runs")
+    _db.report(ctx, res, "c16-big-run")
+    hits += res["findings"]
+    _overflow_finding(ctx, binp, hits)
+
     path, n, _ = _db.tlc_export(ctx, "db-c16-runs.cfg", "RUN", "runs", simulate="num=%d" % (15 if quick else 150), depth=10, workers=1)
     res = _db.replay(ctx, binp, path, "db", SCOPE, "runs")
     _db.report(ctx, res, "c16-run")
 
-    _db.drive_and_validate(ctx, binp, "db", "seq", 30 if quick else 300, 30, "db-trace-c16.cfg", "seq", 1)
+    _db.drive_and_validate(ctx, binp, "db", "seq", 45 if quick else 450, 30, "db-trace-c16.cfg", "seq", 1)
     if not quick:
         _db.drive_and_validate(ctx, binp, "leader", "seq", 40, 30, "db-trace-c16.cfg", "seq-leader", 2)
 
@@ -85,6 +109,34 @@ def run(ctx):
         ctx.log("override channel: %d stress runs x %d writes of the real channel accepted by ChanTrace (%d states)" % (runs, writes, r.distinct))
     _seq_waiters(ctx, quick)
     ctx.notes["exhaustive"] = True
+
+
+def _overflow_finding(ctx, binp, hits):
+    """Known finding seqOverflow: the committed witness is replayed on every run; while the code still wraps,
+    the finding is reported (the behaviours enumerated by TLC that fall into the class are counted with it)."""
+    import json
+    for f in vf.findings_for("C16"):
+        if f["id"] != "seqOverflow":
+            continue
+        wp = os.path.join(vf.VERIF, f["witness"])
+        if not os.path.exists(wp):
+            raise vf.Inconclusive("witness %s missing" % wp)
+        for mode in ("db", "leader"):
+            res = _db.replay(ctx, binp, wp, mode, SCOPE, "witness-overflow-" + mode)
+            _db.report(ctx, res, "c16-witness-overflow-" + mode, "witness of seqOverflow deviates outside its overflow steps:")
+            wraps = [h for h in res["findings"] if h["err"].startswith("wraps")]
+            if wraps:
+                n = sum(h["count"] for h in hits if h["err"].startswith("wraps"))
+                ctx.known_finding("seqOverflow [%s]: a sequence put whose suffix + delta exceeds 2^64-1 is not refused, the sum wraps: "
+                                  "the generated key is not above the existing keys and can replace a live record, e.g. %s -> %s "
+                                  "(%d enumerated behaviours of this class behave the same)" %
+                                  (mode, wraps[-1]["req"], wraps[-1]["err"], n))
+            for h in res["findings"]:
+                if not h["err"].startswith("wraps"):
+                    ctx.log("seqOverflow witness: %s -> %s" % (h["req"], h["err"][:300]))
+    other = [h for h in hits if not h["err"].startswith("wraps")]
+    if other:
+        ctx.log("%d overflowing request(s) are no longer treated by wrapping, e.g. %s -> %s" % (len(other), other[0]["req"], other[0]["err"][:300]))
 
 
 def _seq_waiters(ctx, quick):
